@@ -42,7 +42,7 @@ theorem end_none (g : Cfg) (p : P) (tok rest : Bytes) (acc : List Ev)
   · simp only [List.cons_append, List.nil_append]
     rw [spec_step g p tok CR _ acc { p with contentLength := -1, st := .headerOverLF } .next [.contentLength (-1)]
           (by simp [block, hp])
-          (by simp [byteStep, hp, endOfHeaders, addTrailerKeys, hte, hcl, hch, ok, CR, SP, bind, Except.bind, pure, Except.pure])]
+          (by simp [byteStep, hp, endOfHeaders, parseTE, parseCL, addTrailerKeys, hte, hcl, hch, ok, CR, SP, bind, Except.bind, pure, Except.pure])]
     rw [spec_step g _ _ LF _ _ (handleMessage g { p with contentLength := -1, st := .headerOverLF, headerExists := false })
           .next [.complete] (by simp [block])
           (by simp [byteStep, hch, ok])]
@@ -77,7 +77,7 @@ theorem endOfHeaders_length (p : P) (v : Bytes) (hte : p.te = []) (hcl : p.cl = 
     endOfHeaders p = .ok { p with contentLength := Int.ofNat (decimal (trimRightSpaces v)) } := by
   have hv : v ≠ [] := by intro h; subst h; exact hne trimRightSpaces_nil
   have hp := parseCL_digits _ hne hdig hlt
-  simp only [endOfHeaders, hte, hcl, bind, Except.bind, pure, Except.pure, if_true, List.head?_cons, hv, if_false, hp]
+  simp only [endOfHeaders, parseTE, parseCL, hte, hcl, bind, Except.bind, pure, Except.pure, if_true, List.head?_cons, hv, if_false, hp]
   have : ¬ (Int.ofNat (decimal (trimRightSpaces v)) < 0) := by simp
   simp [this]
 
@@ -135,7 +135,7 @@ theorem framing_chunked (p : P) (v : Bytes) (hte : p.te = [v]) (hv : (trim v).ma
                                        trailer := (declaredKeys p.tr).eraseDups } := by
   refine ⟨{ p with te := [], cl := [], chunked := true, contentLength := -1 }, ?_, rfl, ?_⟩
   · have hh : ([v] : List Bytes).head! = v := rfl
-    simp [endOfHeaders, hte, hh, hv, bind, Except.bind, pure, Except.pure]
+    simp [endOfHeaders, parseTE, parseCL, hte, hh, hv, bind, Except.bind, pure, Except.pure]
   · by_cases htr : p.tr = []
     · simp [addTrailerKeys, htr, declaredKeys, htrailer, pure, Except.pure]
     · simp [addTrailerKeys, htr, hforb, pure, Except.pure]
